@@ -6,12 +6,14 @@
 //!
 //! VERIF_SEED selects the random stream (default 1).
 
+mod arbiter;
 mod canon;
 mod checks;
 mod data;
 mod eng;
 mod qgen;
 mod sqldiff;
+mod workers;
 mod report;
 mod rng;
 
@@ -24,6 +26,16 @@ fn main() {
         std::process::exit(2);
     }
     eng::install_panic_hook();
+    // Safety net for the sandbox (no swap): cap this process's address space so
+    // a runaway query kills its own process, not the machine. A worker that
+    // dies this way is reported as inconclusive by the driver.
+    {
+        let gb: u64 = std::env::var("QE_VERIF_AS_LIMIT_GB").ok().and_then(|s| s.parse().ok()).unwrap_or(if args[1] == "worker" { 10 } else { 28 });
+        let lim = libc::rlimit { rlim_cur: gb << 30, rlim_max: gb << 30 };
+        unsafe {
+            libc::setrlimit(libc::RLIMIT_AS, &lim);
+        }
+    }
     let seed: u64 = std::env::var("VERIF_SEED").ok().and_then(|s| s.trim().parse().ok()).unwrap_or(1);
     match args[1].as_str() {
         "check" => {
@@ -78,7 +90,13 @@ fn main() {
                 Err(e) => println!("   err {}", e),
             }
             if std::env::var("PLAN").is_ok() {
-                println!("{:?}", ctx.optimized_plan(&sql).map(|p| p.to_string()));
+                println!("BOUND:\n{}", ctx.logical_plan(&sql).map(|p| p.to_string()).unwrap_or_else(|e| e.to_string()));
+                println!("OPTIMIZED:\n{}", ctx.optimized_plan(&sql).map(|p| p.to_string()).unwrap_or_else(|e| e.to_string()));
+                if let Ok(rule) = std::env::var("RULE") {
+                    let r: Vec<_> = eng::production_rules().into_iter().filter(|x| x.name() == rule).take(1).collect();
+                    let o = query_engine::optimizer::Optimizer::with_rules(r);
+                    println!("RULE {}:\n{}", rule, ctx.logical_plan(&sql).and_then(|p| o.optimize(p)).map(|p| p.to_string()).unwrap_or_else(|e| e.to_string()));
+                }
             }
         }
         "replay" => {
